@@ -145,6 +145,7 @@ public:
     void progress();                             // something observable changed (called by the acting rank)
     void poke(int world_rank);                   // something addressed to that rank happened
     void failed_poll();                          // the calling rank polled without success
+    void idle_tick();                            // a non-yielding API call; bounds spinning on such calls
     void work(double mean_us);                   // harness: virtual job duration (yields)
     void note(int a, int b = 0, int c = 0, int d = 0); // harness event into trace/hash
     void fail(const std::string& verdict, const std::string& detail); // harness/SimMPI: end the run with this verdict (throws Abort in rank context)
